@@ -2934,6 +2934,97 @@ def run_release(case) -> CaseResult:
     return CaseResult(sorted(labels), nontrivial)
 
 
+async def listen_fail_scenario(rig: Rig, case, labels) -> bool:
+    """A listen request that FAILS must leave nothing listening: the listen
+    host '' stands for every address (0.0.0.0 and ::), and the port is taken
+    on one of them only"""
+
+    labels.add('listen-fail:' + case['kind'])
+    labels.add('busy:' + case['busy'])
+    await rig.start()
+    family, addr = {'v6': (socket.AF_INET6, '::'),
+                    'v4': (socket.AF_INET, '0.0.0.0')}[case['busy']]
+
+    try:
+        blocker = socket.socket(family, socket.SOCK_STREAM)
+    except OSError:
+        labels.add('no-' + case['busy'])
+        return False
+
+    try:
+        if family == socket.AF_INET6:
+            blocker.setsockopt(socket.IPPROTO_IPV6, socket.IPV6_V6ONLY, 1)
+
+        try:
+            blocker.bind((addr, 0))
+        except OSError:
+            labels.add('no-' + case['busy'])
+            return False
+
+        blocker.listen(1)
+        port = blocker.getsockname()[1]
+        before = own_listeners()
+        refused = False
+
+        try:
+            if case['kind'] == 'local':
+                lst = await rig.must(rig.conn.forward_local_port(
+                    '', port, '127.0.0.1', 9), 'forward_local_port')
+            elif case['kind'] == 'socks':
+                lst = await rig.must(rig.conn.forward_socks('', port),
+                                     'forward_socks')
+            else:
+                lst = await rig.must(rig.conn.forward_remote_port(
+                    '', port, '127.0.0.1', 9), 'forward_remote_port')
+        except (OSError, asyncssh.Error, asyncssh.ChannelListenError):
+            refused = True
+
+        if not refused:
+            # (a platform where both binds went through: nothing to see)
+            labels.add('listen-succeeded')
+            lst.close()
+            return False
+
+        labels.add('listen-refused')
+
+        for _ in range(3):
+            await rig.probe()
+
+        after = own_listeners()
+
+        if after != before:
+            raise Violation(
+                'release', 'listen request for every address on port %d '
+                'failed (the port is taken on %s), yet the process now holds '
+                'listening sockets %r (before: %r)' %
+                (port, addr, after, before),
+                'listen-fail:listener-left:' + case['kind'])
+
+        rig.conn.close()
+        await rig.must(rig.conn.wait_closed(), 'close')
+        return True
+    finally:
+        blocker.close()
+
+
+def run_listen_fail(case) -> CaseResult:
+    rig = Rig()
+    labels = set()
+
+    try:
+        nontrivial = rig.run(listen_fail_scenario(rig, case, labels))
+    finally:
+        rig.close()
+
+    return CaseResult(sorted(labels), nontrivial)
+
+
+def listen_fail_cases(tier: str):
+    for kind in ('local', 'socks', 'remote'):
+        for busy in ('v6', 'v4'):
+            yield {'kind': kind, 'busy': busy}
+
+
 def release_strategy(tier: str):
     return st.fixed_dictionaries({
         'listeners': st.lists(pick(REL_KINDS), min_size=1,
@@ -3268,6 +3359,9 @@ FAMILIES = [
                       'listen-in-flight', 'socks-half-negotiated',
                       'origin-reset-before-confirm',
                       'end-close', 'end-abort', 'end-sabort', 'end-cut']},
+           case_timeout=120),
+    Family('listen-fail', run_listen_fail, enumerate=listen_fail_cases,
+           exhaustive=True, required={'all': ['listen-refused']},
            case_timeout=120),
     Family('interop', run_interop, enumerate=interop_cases,
            required={'all': ['ssh-' + m for m in INTEROP_MODES] +
